@@ -18,7 +18,7 @@ def graph_case(rnd, max_nodes=5, max_t=6, max_edges=12, selfloops=0.1, long_time
         t = rnd.randint(0, T)
         e = None if rnd.random() < 0.75 else t + rnd.randint(1, 3)
         hist.append(('add', 0, u, v, t, e))
-    if long_timeline and rnd.random() < 0.06:
+    if long_timeline and rnd.random() < gen.MANY_RUNS_P:
         # LONG timeline: one pair with 17..40 separate runs (two to three instants each).  Only where no paths are
         # enumerated (temporal_dag alone): the number of time-respecting paths grows exponentially with the runs
         k = rnd.randint(17, 40)
